@@ -5,7 +5,7 @@ import torch
 
 from vlib import policies
 from vlib.c12impl import strip
-from vlib.taps import PolicyTap, logit_noise
+from vlib.taps import Float64, PolicyTap, logit_noise, td_to64
 
 
 def hook_beam(s, rec):
@@ -140,7 +140,24 @@ def case(ctx, case):
             ev = pol(tdr, env, phase="test", actions=beams_a.clone(), return_sum_log_likelihood=False)
         ctx.count("c13_replays", R)
         d = (ev["log_likelihood"][:, 1:].double() - beams_ll[:, 1:].double()).abs()
-        if bool((d > 1e-4 + logit_noise(rec)).any()):  # conditioning-aware: unscaled CVRPTW logits reach 5e3 (ulp 5e-4)
+        if bool((d > 1e-4 + logit_noise(rec)).any()):  # beyond the float32 allowance: decide in float64
+            # the same beam search and the same evaluation in double precision: a conditioning effect vanishes (agreement
+            # ~1e-9), a wrong parent / back-tracking index does not
+            with torch.no_grad(), Float64(pol):
+                o64 = pol(td_to64(td0), env, phase="test", decode_type="beam_search", beam_width=W, select_best=case["select_best"], return_actions=True, return_sum_log_likelihood=False)
+                a64, l64 = o64["actions"], o64["log_likelihood"]
+                ok64 = None
+                if a64.shape[0] == W * B:
+                    e64 = pol(batchify(td_to64(td0), W), env, phase="test", actions=a64.clone(), return_sum_log_likelihood=False)["log_likelihood"]
+                    L = min(e64.shape[1], l64.shape[1])
+                    d64 = (e64[:, 1:L] - l64[:, 1:L]).abs()
+                    ok64 = not bool((d64 > 1e-7 * (1 + l64[:, 1:L].abs())).any())
+            ctx.count("c13_float64_escalations")
+            if ok64:
+                ctx.ambiguous += 1
+                ctx.count("c13_float32_conditioning_cases")
+                ctx.sample(dict(case=case, float32_gap=float(d.max()), float64_gap=float(d64.max())))
+                return
             r = int(d.max(1).values.argmax())
             ctx.violation(dict(sig, q="beam_logprobs"), f"beam {r}: per-step log-probs returned by beam search differ from those the policy assigns along that very sequence by up to {float(d.max()):.4g} (back-tracking / parent re-indexing)",
                           dict(n=n, B=B, W=W, beam=beams_a[r].tolist(), returned=beams_ll[r].tolist(), replay=ev["log_likelihood"][r].tolist()))
